@@ -194,7 +194,17 @@ def run(case):
             src = cube[Q.dec_items(case["pre_arg"])]
         elif case["pre"] == "rebinned":
             src = cube.rebin(tuple(case["pre_arg"]))
-        r = src.rebin(bins)
+        # the bin shape as ints, or (documented: entries are rounded to the nearest int) as fractional numbers in a
+        # tuple / list / array / Quantity in pixels that round to the same ints
+        import zlib
+        bk = zlib.crc32(("bins" + case["key"]).encode()) % 6
+        if bk < 3:
+            bins_arg = bins
+        else:
+            offs = [(-0.4, 0.3, -0.2, 0.4)[(i + bk + b) % 4] for i, b in enumerate(bins)]
+            frac = [b + o for b, o in zip(bins, offs)]
+            bins_arg = [tuple(frac), np.array(frac), np.array(frac) * __import__("astropy.units", fromlist=["pix"]).pix][bk - 3]
+        r = src.rebin(bins_arg)
     except Exception as e:  # noqa
         finding = None
         if ec2 and ec2["k"] == "q2" and isinstance(e, ValueError) and "same shape" in str(e):
